@@ -10,7 +10,10 @@ Results corpus (every document is run through the extractor the router selects f
           value features (inner space, double space, & < > " ' the literal text "&amp;", { } backslash, the euro sign
           (0x80 in code page 1252), non-BMP, RTL); plus one variant of it per damaging feature the writer can express:
           lone surrogate (rtf, ppt, xls), dangling / external picture references (ooxml, odf, epub), \\'xx escapes (rtf);
-  (body)  per format the empty document and every single body feature on its own;
+  (body)  per format the empty document and every single body feature on its own; the features include the POSITION
+          MODIFIERS hu / tblu / ulu / au / notesu / hfu: the non-BMP / RTL / markup characters of "uni" inside a heading, table
+          cells, list items, link text, speaker notes, page header + footer (every place where text lives has its own decoding
+          path; each modifier also gets a variant of the rich document);
   (meta)  per format: each storable property alone (plain value), and all storable properties together with no / each single
           value feature (16 documents; RTF: also with the \\'xx writer variant);
   (mut)   single-deviation byte mutations of the small document [paragraph, non-BMP/RTL paragraph, table, picture, title]
@@ -20,9 +23,25 @@ Results corpus (every document is run through the extractor the router selects f
           re-zipped); quick: every 2nd truncation, every 4th offset, no XOR 0x20, main part only. thorough also mutates
           every fixture (truncation, the three XORs; quick: only the .doc and .msg fixtures - the formats without a
           writer - with the quick offsets).  Only mutants that are still accepted (a result list comes back) are judged;
+  (pic)   the PICTURE family (verif.props.c04_pics), 11 formats that can hold a picture (docx pptx xlsx odt odp odg ods rtf ppt xls
+          epub): the document [paragraph, picture] with the picture's payload kind in {png, jpeg, gif, bmp, bmpv5, tiff, emf, wmf,
+          pict, unk, empty, png0, pngsig} (ppt / xls: as the OfficeArt BLIP record of the kind, with one or two UIDs), and the frame's
+          display size (w, h) drawn from the size lexemes of the format: 33 ODF lengths and damaged forms of them (odt odp odg ods:
+          svg:width / svg:height), 14 integer lexemes (docx pptx xlsx: cx / cy extents; rtf: the picw pich picwgoal pichgoal keywords).
+          quick: every kind x {natural size, (zero, zero)} and the PNG with (l, ok), (ok, l), (l, l) for every lexeme l;
+          thorough: every kind x those pair forms, and the PNG with every (w, h) of lexemes x lexemes;
+  (cs)    the CHARACTER-ENCODING family (verif.props.c04_charsets): html, mhtml with each of 27 declared charset labels (standard
+          ones, 7-bit transfer forms, Python-specific codec names, non-text codecs, unknown, empty) x the ways a label reaches the
+          reader (meta charset, meta http-equiv, byte-order mark; MIME part parameter), plain text (txt; thorough: md csv json) with
+          each of 8 signatures; title and paragraph carry every spelling of a lone surrogate / non-scalar code point (UTF-7, escape
+          notations, character references, raw CESU / UTF-16 / overlong / too-large bytes);
+  (doclines) the LINE-RECOMBINATION family for .doc, the format without writer (verif.props.c04_doctext): every .doc fixture with
+          its main text (located through FIB and piece table) replaced by every sequence of <= 2 (thorough: <= 3) of its own first
+          12 distinct lines - container, properties and pictures stay;
 x path arguments {None, "a.ext", "dir/a.ext", "/abs/none/a.ext", an existing temp file, "ü ä.ext", "arch.zip!/d/a.ext",
   "", "."}  (mutants that are rejected with path None are not re-run with the other eight; fixture mutants: None only;
-  quick: generated mutants with None, the temp file and the unicode name only).
+  quick: generated mutants with None, the temp file and the unicode name only; pic and cs families: None and the unicode name -
+  the path does not reach pictures or decoders; doclines: None).
 
 On every result, and every unit / image / table reachable from it (iterate_units / iterate_images / iterate_tables,
 unit.get_images / unit.get_tables), the accessor alphabet - discovered by reflection from the Protocol classes
@@ -31,7 +50,9 @@ argument - is called: each accessor once, then all ordered pairs (a, b) on the s
 iterators exhausted, streams read to the end), and b's return value is judged again.
 
 A case is plain JSON: {"body": [...], "meta": {key: [value features]}, "mut": null | [kind, ...], "path": kind}
-(fmt = format) or {"file": fixture, "mut": ..., "path": kind} (fmt = "fix-<extractor the router selects>").
+(fmt = format; picture family: + "pic": {"kind", "w", "h", "uid2"} with only the non-default components, body ["text", "img"];
+encoding family: + "cs": {"label", "form"}, body ["text"]) or {"file": fixture, "mut": ..., "path": kind}
+(fmt = "fix-<extractor the router selects>"; line recombination: + "lines": [indices]).
 
 Oracle clauses (the clause name carries the object kind and accessor):
   raises:<k>.<acc>   the accessor raised
@@ -61,17 +82,22 @@ from pathlib import Path
 
 from verif.mc import pool as P
 from verif.props import c04_corpus as K
+from verif.props import c04_pics as PX
+from verif.props import c04_charsets as CS
+from verif.props import c04_doctext as DT
 
 LEVEL = "exploration"
 RES_DIR = "/repo/sharepoint2text/tests/resources"
 PATH_KINDS = ["none", "rel", "dir", "abs", "tmp", "uni", "arch", "empty", "dot"]
 QUICK_MUT_PATHS = ["none", "tmp", "uni"]      # quick: accepted mutants are run with three of the nine path arguments
+PIC_PATHS = ["none", "uni"]                   # picture family: the path argument does not reach the pictures; two of the nine
 PROP_ATTRS = {"title": ("title",), "author": ("author", "creator", "initial_creator"), "subject": ("subject",),
               "keywords": ("keywords",), "description": ("description", "comments", "doc_comment")}
 EXT = {f: f for f in K.FORMATS}
 SMALL_BODY = ["text", "uni", "tbl", "img"]
 SMALL_BODY_ARCHIVE = ["text", "uni", "u2"]        # members b.txt, "ü ä/c.html", d/e/f.md (a DOCX member would only repeat the DOCX mutants)
 SMALL_META = {"title": []}
+PIC_BODY = ["text", "img"]                    # the document of the picture family: one paragraph, one picture (c04_pics)
 NO_WRITER_EXT = ("doc", "msg")
 ARCHIVE_EXT = ("zip", "tar", "7z", "tgz", "tbz2", "txz", "gz", "bz2", "xz")
 FIXTURE_MUT_MAX_BYTES = 2_500_000
@@ -450,6 +476,12 @@ def materialise(fmt, case, seed):
         with open(p, "rb") as f:
             data = f.read()
         ext = _fixture_ext(case["file"])
+        if case.get("lines") is not None:
+            if mut or ext.lower() != ".doc":
+                return None
+            data = DT.substitute(data, case["lines"])
+            if data is None:
+                return None
         if mut:
             data = K.mutate(None, data, mut)
             if data is None:
@@ -461,7 +493,16 @@ def materialise(fmt, case, seed):
     meta = case.get("meta") or {}
     if any(k not in K.META_KEYS or any(f not in K.VALUE_FEATURES for f in v) for k, v in meta.items()):
         return None
-    d = K.build(fmt, case.get("body") or [], meta, seed)
+    if case.get("pic") is not None:
+        if not PX.valid(fmt, case["pic"]) or meta or list(case.get("body") or []) != PIC_BODY or case.get("cs") is not None:
+            return None
+        d = PX.build(fmt, case["pic"], K.Tokens(seed))
+    elif case.get("cs") is not None:
+        if not CS.valid(fmt, case["cs"]) or meta or list(case.get("body") or []) != CS.CS_BODY:
+            return None
+        d = CS.build(fmt, case["cs"], K.Tokens(seed))
+    else:
+        d = K.build(fmt, case.get("body") or [], meta, seed)
     data = d["data"]
     if mut:
         data = K.mutate(fmt, data, mut)
@@ -516,8 +557,27 @@ def shrinks(case):
         yield dict(case, mut=None)
     if case.get("path", "none") != "none":
         yield dict(case, path="none")
+    if case.get("lines"):
+        ls = case["lines"]
+        for i in range(len(ls)):
+            yield dict(case, lines=ls[:i] + ls[i + 1:])
     if "file" in case or case.get("mut"):
         return          # a mutation addresses byte offsets of one particular document: the document is kept as it is
+    if case.get("cs") is not None:
+        # towards the ordinary document: UTF-8 declared by a meta element (plain text: no signature)
+        cs = case["cs"]
+        dflt = CS.default("txt" if cs["form"] == "sig" else "html")
+        for k in ("form", "label"):
+            if cs[k] != dflt[k]:
+                yield dict(case, cs=dict(cs, **{k: dflt[k]}))
+        return
+    if case.get("pic") is not None:
+        # towards the ordinary picture: each component of the description back to its default (PNG, natural size, one UID)
+        pic = case["pic"]
+        for k in ("uid2", "h", "w", "kind"):
+            if k in pic and pic[k] != PX.DEFAULT[k]:
+                yield dict(case, pic={a: b for a, b in pic.items() if a != k})
+        return
     body = case.get("body") or []
     for i in range(len(body)):
         yield dict(case, body=body[:i] + body[i + 1:])
@@ -540,9 +600,22 @@ def embeds(small, big):
         return False    # shapes found on mutants stand for "some single-byte deviation of this document" (see fingerprint_view)
     if small.get("path", "none") != "none" and small.get("path") != big.get("path"):
         return False
+    if (small.get("lines") is None) != (big.get("lines") is None):
+        return False
+    if small.get("lines") is not None:
+        it = iter(big["lines"])            # the smaller line sequence is a subsequence of the bigger one (same fixture)
+        return small["file"] == big["file"] and all(any(x == y for y in it) for x in small["lines"])
     if "file" in small:
         # mutated fixtures of one extension (= one fmt) that fail the same clause are one shape; unmutated ones are per file
         return small["file"] == big["file"] or bool(small.get("mut"))
+    if (small.get("pic") is None) != (big.get("pic") is None) or (small.get("cs") is None) != (big.get("cs") is None):
+        return False
+    if small.get("cs") is not None:
+        dflt = CS.default("txt" if small["cs"]["form"] == "sig" else "html")
+        return all(big["cs"].get(k) == v for k, v in small["cs"].items() if v != dflt[k])
+    if small.get("pic") is not None:
+        sp, bp = dict(PX.DEFAULT, **small["pic"]), dict(PX.DEFAULT, **big["pic"])
+        return all(bp[k] == v for k, v in sp.items() if v != PX.DEFAULT[k])
     if not set(small.get("body") or []) <= set(big.get("body") or []):
         return False
     bm = big.get("meta") or {}
@@ -555,6 +628,8 @@ def embeds(small, big):
 def fingerprint_view(case):
     """the concrete deviation (kind, offset index) is not part of a finding's identity: all accepted mutants of one document
     that fail the same clause are one shape (mutated fixtures: one shape per extension and clause)"""
+    if case.get("pic") is not None:
+        return dict(case, pic=PX.canonical(case["pic"]))
     if not case.get("mut"):
         return case
     if "file" in case:
@@ -642,6 +717,17 @@ def documents(tier):
                 out.append((fmt, {"body": body, "meta": {k: list(vf) for k in keys}, "mut": None}, "meta", True))
         for mut in mutations(tier, fmt):
             out.append((fmt, small_case(fmt, mut), "mut", True))
+        for pic in PX.cases(tier, fmt):
+            out.append((fmt, {"body": list(PIC_BODY), "meta": {}, "mut": None, "pic": pic}, "pic", PIC_PATHS))
+        for cs in CS.cases(tier, fmt):
+            out.append((fmt, {"body": list(CS.CS_BODY), "meta": {}, "mut": None, "cs": cs}, "cs", PIC_PATHS))
+    for rel in fixture_files():
+        if _fixture_ext(rel).lower() != ".doc":
+            continue
+        with open(os.path.join(RES_DIR, rel), "rb") as f:
+            lines = DT.lines_of(f.read())
+        for seq in DT.sequences(len(lines), 2 if tier == "quick" else 3) if lines else []:
+            out.append((_fix_fmt(rel), {"file": rel, "mut": None, "lines": seq}, "doclines", ["none"]))
     for rel in fixture_files():
         ext = _fixture_ext(rel).lstrip(".").lower()
         if tier == "quick" and ext not in NO_WRITER_EXT:
@@ -653,13 +739,19 @@ def documents(tier):
     return out
 
 
+_DOCS = {}
+
+
 def _part(arg):
-    tier, k, n, seed = arg
+    tier, k, n, seed, feats = arg
     import logging
     import warnings
     warnings.simplefilter("ignore")
     logging.disable(logging.CRITICAL)
-    docs = documents(tier)
+    _FEATS.update(feats)               # computed once by the master (a worker would rebuild ~600 documents to find them out)
+    if tier not in _DOCS:
+        _DOCS[tier] = documents(tier)  # workers are persistent: one enumeration per worker, not per partition
+    docs = _DOCS[tier]
     order = list(range(len(docs)))
     ev = objects = calls = accepted = docs_done = 0
     fails = []
@@ -680,7 +772,8 @@ def _part(arg):
         if doc is None:
             continue
         docs_done += 1
-        for pk in (["none"] if not all_paths else (QUICK_MUT_PATHS if tier == "quick" and base.get("mut") else PATH_KINDS)):
+        for pk in (all_paths if isinstance(all_paths, list) else ["none"] if not all_paths else
+                   (QUICK_MUT_PATHS if tier == "quick" and base.get("mut") else PATH_KINDS)):
             case = dict(base, path=pk)
             f, oc, st = run_doc(doc, pk)
             ev += 1
@@ -704,16 +797,17 @@ def _part(arg):
 
 def run(ctx):
     n = 64 if ctx.quick else 256
-    args = [(ctx.tier, k, n, ctx.seed) for k in range(n)]
+    feats = {fmt: features_of(fmt) for fmt in K.FORMATS}
+    args = [(ctx.tier, k, n, ctx.seed, feats) for k in range(n)]
     random.Random(ctx.seed).shuffle(args)
-    res = P.run_all("verif.props.C04", "_part", args, n=ctx.ncpu, hard_timeout=900)
+    res = P.run_all("verif.props.C04", "_part", args, n=ctx.ncpu, hard_timeout=3600)      # a wall-clock guard against hangs only (one accepted fixture mutant costs ~100 CPU s), never a verdict
     ev = objects = calls = accepted = ndocs = 0
     fails, herr, samples = [], [], []
     outcomes, groups = {}, {}
     unjudged = set()
     for (st, r, note), a in zip(res, args):
         if st != "done":
-            herr.append(f"partition {a} failed: {st}: {str(r)[-600:]} (last document {note})")
+            herr.append(f"partition {a[:4]} failed: {st}: {str(r)[-600:]} (last document {note})")
             continue
         ev += r["ev"]; objects += r["objects"]; calls += r["calls"]; accepted += r["accepted"]; ndocs += r["docs"]
         for f in r["fails"]:
@@ -737,10 +831,19 @@ def run(ctx):
            "exhaustive": True, "documents": ndocs, "accepted_cases": accepted, "result_objects_exercised": objects,
            "accessor_calls": calls, "groups": groups, "alphabet": alphabets(),
            "outcome_classes": len(outcomes),
+           "bounds": {"picture_kinds": list(PX.KINDS), "picture_formats": list(PX.PIC_FORMATS),
+                      "size_lexemes_odf": sorted(PX.LEN), "size_lexemes_int": sorted(PX.INT),
+                      "size_pairs": "quick: kind x {natural, (zero, zero)} + png x {(l, ok), (ok, l), (l, l)}; thorough: kind x pair forms + png x all pairs",
+                      "charset_labels": sorted(CS.LABELS), "charset_forms": {"html": list(CS.HTML_FORMS), "mhtml": list(CS.MHTML_FORMS),
+                                                                              "plain": sorted(CS.SIGS)},
+                      "position_modifiers": sorted(K.UNI_POS), "doc_lines": DT.MAX_LINES,
+                      "doc_line_sequences": "length <= %d" % (2 if ctx.quick else 3)},
            "rule": "every fixture, every rich / single-feature / single-property generated document of the 24 writer formats and "
                    "every single-deviation byte mutation (16 truncations, 64 offsets x XOR {0xFF, 0x01, 0x20}, 3 parts x 64 offsets x XOR "
                    "{0x01, 0x20} inside ZIP packages; quick: every 2nd / 4th, no 0x20, one part) of the small document per format (thorough: also of "
-                   "every fixture, quick: of the .doc/.msg fixtures) x 9 path arguments; on every result / unit / image / table "
+                   "every fixture, quick: of the .doc/.msg fixtures) x 9 path arguments; plus the picture family (payload kind x frame size "
+                   "lexemes, 11 formats), the character-encoding family (charset label x declaration form; html, mhtml, plain text) and the "
+                   ".doc line-recombination family (see bounds; 2 resp. 1 path arguments); on every result / unit / image / table "
                    "each accessor of the reflected alphabet once and then all ordered pairs; evaluations = (document, path) "
                    "extractions; distinct_nontrivial = distinct (result classes, #results, #units, #images, #tables, failing "
                    "clauses) outcomes of accepted cases",
